@@ -1,3 +1,282 @@
-/-! Model for property C15 (core Lean only; no Mathlib). -/
+/-! Model for property C15 (core Lean only; no Mathlib).
+
+  A line-by-line symbolic model of
+
+    pytreenet/operators/lindbladian.py   : generate_lindbladian and its four `_add_*` helpers
+    pytreenet/operators/tensorproduct.py : add_suffix, _local_action (transpose / conjugate /
+                                           conjugate_transpose), otimes, multiply
+    pytreenet/operators/hamiltonian.py   : add_term, deal_with_term_input (tuple form)
+
+  Everything is symbolic: a term is `(Fraction, coefficient symbol, {site ↦ operator label})`.
+  The numerical tests of the source (`issymmetric`, `isreal`, `ishermitian`, `allclose(·, eye)`)
+  are INPUTS of the model (`Flags`); the precondition that every label used by a term is a key of
+  the corresponding dictionary (otherwise Python raises `KeyError`) is assumed, so the flag tables
+  are total functions, with `false` (= "take the generic path") for labels nobody declared.  -/
 namespace Ptn.C15
+
+abbrev Site := String
+abbrev Label := String
+
+/-- A symbolic `TensorProduct`: the dict `site ↦ label` in insertion order (keys distinct). -/
+abbrev TP := List (Site × Label)
+
+/-- One term `(Fraction, symbolic coefficient, TensorProduct)`. -/
+structure Term where
+  frac : Rat
+  coeff : String
+  tp : TP
+  deriving DecidableEq, Repr
+
+/-- The part of a `Hamiltonian` object the construction touches: the term list and the key lists
+    of `conversion_dictionary` and `coeffs_mapping` (insertion order). -/
+structure Ham where
+  terms : List Term
+  convKeys : List Label
+  coeffKeys : List String
+  deriving Repr
+
+/-- The outcome of the numerical classification of the operators. -/
+structure Flags where
+  /-- `_find_symmetric_operators(hamiltonian.conversion_dictionary)` -/
+  symH : Label → Bool
+  /-- `_find_real_operators(jump_operator_dict)` -/
+  real : Label → Bool
+  /-- `_find_identity_operators(jump_operator_dict)` -/
+  ident : Label → Bool
+  /-- `_find_hermitian_operators(jump_operator_dict)` -/
+  herm : Label → Bool
+  /-- `_find_symmetric_operators(jop_conv_dict)`: also asked for the derived labels
+      (`…_H`, `…_mult_…`) -/
+  symJ : Label → Bool
+
+/-! ### `TensorProduct` -/
+
+/-- `TensorProduct.add_suffix` -/
+def addSuffix (tp : TP) (suffix : String) : TP := tp.map fun (s, l) => (s ++ suffix, l)
+
+/-- `TensorProduct._local_action` on symbolic operators: an operator that is invariant under the
+    action keeps its label, every other one gets the suffix. -/
+def localAction (invariant : Label → Bool) (idSuffix : String) (tp : TP) : TP :=
+  tp.map fun (s, l) => (s, if invariant l then l else l ++ idSuffix)
+
+/-- `TensorProduct.transpose(sym_dict)` -/
+def transposeTP (sym : Label → Bool) (tp : TP) : TP := localAction sym "_T" tp
+/-- `TensorProduct.conjugate(real_dict)` -/
+def conjugateTP (real : Label → Bool) (tp : TP) : TP := localAction real "_conj" tp
+/-- `TensorProduct.conjugate_transpose(herm_dict)` -/
+def adjointTP (herm : Label → Bool) (tp : TP) : TP := localAction herm "_H" tp
+
+/-- dict lookup -/
+def TP.get? (tp : TP) (s : Site) : Option Label := List.lookup s tp
+
+/-- one pass of the loop of `TensorProduct.otimes` -/
+def otimesStep (acc : Option TP) (e : Site × Label) : Option TP :=
+  match acc with
+  | none => none
+  | some tp => if (TP.get? tp e.1).isSome then none else some (tp ++ [e])
+
+/-- `TensorProduct.otimes`: `none` stands for the `ValueError` on a common identifier. -/
+def otimes (a b : TP) : Option TP := b.foldl otimesStep (some a)
+
+/-- The label produced at one site by `TensorProduct.multiply`. -/
+def multLabel (ident : Label → Bool) (op other : Label) : Label :=
+  if ident op then other
+  else if ident other then op
+  else op ++ "_mult_" ++ other
+
+/-- first loop of `multiply`: the sites of `self` -/
+def multStep1 (ident : Label → Bool) (b : TP) (acc : TP × List Label) (e : Site × Label) :
+    TP × List Label :=
+  match TP.get? b e.1 with
+  | some other =>
+    let l := multLabel ident e.2 other
+    (acc.1 ++ [(e.1, l)], if ident e.2 || ident other then acc.2 else acc.2 ++ [l])
+  | none => (acc.1 ++ [e], acc.2)
+
+/-- second loop of `multiply`: the sites only `other` acts on -/
+def multStep2 (acc : TP) (e : Site × Label) : TP :=
+  if (TP.get? acc e.1).isSome then acc else acc ++ [e]
+
+/-- `TensorProduct.multiply(other, identity_dict, conversion_dict)`: the product and the list of
+    labels written into the conversion dictionary. -/
+def multiply (ident : Label → Bool) (a b : TP) : TP × List Label :=
+  let first := a.foldl (multStep1 ident b) ([], [])
+  (b.foldl multStep2 first.1, first.2)
+
+/-! ### `Hamiltonian` -/
+
+/-- `Hamiltonian.add_term` (tuple form) -/
+def Ham.addTerm (h : Ham) (t : Term) : Ham := { h with terms := h.terms ++ [t] }
+
+/-- keys of `d.update(other)`: existing keys keep their position, new ones are appended -/
+def keysUpdate (keys new : List String) : List String :=
+  new.foldl (fun acc k => if acc.contains k then acc else acc ++ [k]) keys
+
+/-! ### the four `_add_*` helpers -/
+
+/-- `_add_hamiltonian_ket_terms` -/
+def addHamiltonianKetTerms (lind ham : Ham) (ketSuffix : String) : Ham :=
+  let lind := ham.terms.foldl (fun acc term =>
+    acc.addTerm ⟨term.frac, term.coeff, addSuffix term.tp ketSuffix⟩) lind
+  { lind with convKeys := keysUpdate lind.convKeys ham.convKeys,
+              coeffKeys := keysUpdate lind.coeffKeys ham.coeffKeys }
+
+/-- `_add_hamiltonian_bra_terms` -/
+def addHamiltonianBraTerms (fl : Flags) (lind ham : Ham) (braSuffix : String) : Ham :=
+  let lind := ham.terms.foldl (fun acc term =>
+    let newTp := transposeTP fl.symH term.tp
+    let newTp := addSuffix newTp braSuffix
+    acc.addTerm ⟨-1 * term.frac, term.coeff, newTp⟩) lind
+  let transposeKeys := (ham.convKeys.filter fun l => !fl.symH l).map (· ++ "_T")
+  { lind with convKeys := keysUpdate lind.convKeys transposeKeys }
+
+/-- One pass of the loop of `_add_jump_operators`; `none` = `ValueError` of `otimes` (ket and bra
+    identifiers collide). -/
+def jumpStep (fl : Flags) (ketSuffix braSuffix : String) (acc : Option Ham) (jump : Term) :
+    Option Ham :=
+  match acc with
+  | none => none
+  | some acc =>
+    let frac := jump.frac
+    let coeff := jump.coeff ++ "*j"
+    let op := jump.tp
+    let ketTp := addSuffix op ketSuffix
+    let braTp := addSuffix op braSuffix
+    let braTp := conjugateTP fl.real braTp
+    match otimes ketTp braTp with
+    | none => none
+    | some fullTp => some (acc.addTerm ⟨frac, coeff, fullTp⟩)
+
+/-- `_add_jump_operators` -/
+def addJumpOperators (fl : Flags) (lind : Ham) (jumps : List Term) (jumpKeys : List Label)
+    (jumpCoeffKeys : List String) (ketSuffix braSuffix : String) : Option Ham :=
+  match jumps.foldl (jumpStep fl ketSuffix braSuffix) (some lind) with
+  | none => none
+  | some lind =>
+    let conjKeys := (jumpKeys.filter fun l => !fl.real l).map (· ++ "_conj")
+    let conv := keysUpdate (keysUpdate lind.convKeys conjKeys) jumpKeys
+    let iCoeffs := jumpCoeffKeys.map (· ++ "*j")
+    some { lind with convKeys := conv, coeffKeys := keysUpdate lind.coeffKeys iCoeffs }
+
+/-- The identity table after the first loop of `_add_jump_operator_products`:
+    `id_dict[op+"_H"] = False` for every jump label that is neither identity nor Hermitian. -/
+def idDictAfterH (fl : Flags) (jumpKeys : List Label) : Label → Bool :=
+  let added := (jumpKeys.filter fun l => !fl.ident l && !fl.herm l).map (· ++ "_H")
+  fun l => if added.contains l then false else fl.ident l
+
+/-- One pass of the second loop of `_add_jump_operator_products`; the state is the Lindbladian and
+    the key list of `jop_conv_dict`. -/
+def prodStep (fl : Flags) (idDict : Label → Bool) (ketSuffix braSuffix : String)
+    (acc : Ham × List Label) (jump : Term) : Ham × List Label :=
+  let (lind, jopKeys) := acc
+  let frac := -1 * jump.frac / 2
+  let coeff := jump.coeff ++ "*j"
+  let op := jump.tp
+  let opAdj := adjointTP fl.herm op
+  let (opMult, newLabels) := multiply idDict opAdj op
+  let jopKeys := keysUpdate jopKeys newLabels
+  let opMultTransp := transposeTP fl.symJ opMult
+  let newFrac := -1 * frac
+  let ketTp := addSuffix opMult ketSuffix
+  let braTp := addSuffix opMultTransp braSuffix
+  let lind := lind.addTerm ⟨frac, coeff, ketTp⟩
+  let lind := lind.addTerm ⟨newFrac, coeff, braTp⟩
+  let transposeKeys := (jopKeys.filter fun l => !fl.symJ l).map (· ++ "_T")
+  ({ lind with convKeys := keysUpdate (keysUpdate lind.convKeys jopKeys) transposeKeys }, jopKeys)
+
+/-- `_add_jump_operator_products` -/
+def addJumpOperatorProducts (fl : Flags) (lind : Ham) (jumps : List Term) (jumpKeys : List Label)
+    (ketSuffix braSuffix : String) : Ham :=
+  let hKeys := (jumpKeys.filter fun l => !fl.ident l && !fl.herm l).map (· ++ "_H")
+  let idDict := idDictAfterH fl jumpKeys
+  let jopKeys0 := keysUpdate jumpKeys hKeys
+  (jumps.foldl (prodStep fl idDict ketSuffix braSuffix) (lind, jopKeys0)).1
+
+/-- The input of `generate_lindbladian`. -/
+structure Input where
+  ham : Ham
+  jumps : List Term
+  /-- keys of `jump_operator_dict` -/
+  jumpKeys : List Label
+  /-- keys of `jump_coeff_mapping` -/
+  jumpCoeffKeys : List String
+  flags : Flags
+  ketSuffix : String := "_ket"
+  braSuffix : String := "_bra"
+
+/-- `generate_lindbladian`. -/
+def generateLindbladian (inp : Input) : Option Ham :=
+  let lind : Ham := { terms := [], convKeys := [], coeffKeys := ["1"] }
+  let lind := addHamiltonianKetTerms lind inp.ham inp.ketSuffix
+  let lind := addHamiltonianBraTerms inp.flags lind inp.ham inp.braSuffix
+  match addJumpOperators inp.flags lind inp.jumps inp.jumpKeys inp.jumpCoeffKeys
+      inp.ketSuffix inp.braSuffix with
+  | none => none
+  | some lind =>
+    some (addJumpOperatorProducts inp.flags lind inp.jumps inp.jumpKeys inp.ketSuffix inp.braSuffix)
+
+/-! ### closed forms (specification side) -/
+
+/-- the ket-side term of a Hamiltonian term -/
+def ketTermOf (ketSuffix : String) (t : Term) : Term :=
+  ⟨t.frac, t.coeff, t.tp.map fun (s, l) => (s ++ ketSuffix, l)⟩
+
+/-- the bra-side term of a Hamiltonian term: prefactor negated, labels transposed -/
+def braTermOf (sym : Label → Bool) (braSuffix : String) (t : Term) : Term :=
+  ⟨-t.frac, t.coeff, t.tp.map fun (s, l) => (s ++ braSuffix, if sym l then l else l ++ "_T")⟩
+
+/-- `L ⊗ conj(L)` with coefficient `γ*j` -/
+def jumpTermOf (real : Label → Bool) (ketSuffix braSuffix : String) (j : Term) : Term :=
+  ⟨j.frac, j.coeff ++ "*j",
+   (j.tp.map fun (s, l) => (s ++ ketSuffix, l)) ++
+   (j.tp.map fun (s, l) => (s ++ braSuffix, if real l then l else l ++ "_conj"))⟩
+
+/-- label of `L†L` at one site -/
+def prodLabel (fl : Flags) (jumpKeys : List Label) (l : Label) : Label :=
+  multLabel (idDictAfterH fl jumpKeys) (if fl.herm l then l else l ++ "_H") l
+
+/-- the ket-side anticommutator term `-(f/2) · γ*j · L†L ⊗ 1` -/
+def ketProdTermOf (fl : Flags) (jumpKeys : List Label) (ketSuffix : String) (j : Term) : Term :=
+  ⟨-(j.frac / 2), j.coeff ++ "*j", j.tp.map fun (s, l) => (s ++ ketSuffix, prodLabel fl jumpKeys l)⟩
+
+/-- the bra-side anticommutator term as the code generates it: prefactor `pref` -/
+def braProdTermWith (pref : Rat) (fl : Flags) (jumpKeys : List Label) (braSuffix : String)
+    (j : Term) : Term :=
+  ⟨pref, j.coeff ++ "*j", j.tp.map fun (s, l) =>
+    (s ++ braSuffix,
+     let p := prodLabel fl jumpKeys l
+     if fl.symJ p then p else p ++ "_T")⟩
+
+/-- The term list with the bra-side anticommutator prefactor `σ · f/2` (`σ = -1`: the GKSL
+    generator of the property; `σ = +1`: see `anticomm_bra_sign_witness`). -/
+def termsWithBraSign (σ : Rat) (inp : Input) : List Term :=
+  inp.ham.terms.map (ketTermOf inp.ketSuffix) ++
+  inp.ham.terms.map (braTermOf inp.flags.symH inp.braSuffix) ++
+  inp.jumps.map (jumpTermOf inp.flags.real inp.ketSuffix inp.braSuffix) ++
+  inp.jumps.flatMap fun j =>
+    [ketProdTermOf inp.flags inp.jumpKeys inp.ketSuffix j,
+     braProdTermWith (σ * (j.frac / 2)) inp.flags inp.jumpKeys inp.braSuffix j]
+
+/-- The GKSL prescription of the property, term by term. -/
+def gkslTerms (inp : Input) : List Term := termsWithBraSign (-1) inp
+
+/-! ### `exact_lindbladian` (prefactors only) -/
+
+/-- a Gaussian rational `re + im·i` -/
+structure GRat where
+  re : Rat
+  im : Rat
+  deriving DecidableEq, Repr
+
+/-- The scalar prefactors of `t1, t2, t3` in `_jump_operator_terms` for a jump operator given
+    with dense coefficient `c` (`coefficient = c ** 2`), as multiples of `c²`:
+    `1j`, `-1j / 2`, `1j / 2`. -/
+def exactJumpPrefactors (c2 : Rat) : GRat × GRat × GRat :=
+  (⟨0, c2 * 1⟩, ⟨0, c2 * (-1 / 2)⟩, ⟨0, c2 * (1 / 2)⟩)
+
+/-- The scalar prefactors of the three generated terms of one jump operator after the symbolic
+    coefficient `γ*j ↦ i·γ` is substituted: `f·iγ`, `-(f/2)·iγ`, `(f/2)·iγ`. -/
+def symbolicJumpPrefactors (f γ : Rat) : GRat × GRat × GRat :=
+  (⟨0, f * γ⟩, ⟨0, -1 * f / 2 * γ⟩, ⟨0, -1 * (-1 * f / 2) * γ⟩)
+
 end Ptn.C15
